@@ -363,3 +363,21 @@ Theorem gen_FindAsync_skip_ladder_table :
   end.
 Proof. exact GenTie_C12.FindAsync_skip_ladder_table. Qed.
 Print Assumptions gen_FindAsync_skip_ladder_table.
+
+(* ---- phase 3: ties to the Gallina regenerated from the Go source (proofs/GenTie_P3_C12.v) ---- *)
+From Coq Require Import ZArith NArith List Bool Lia String.
+From Lib Require Import Bytes.
+From Model Require Import C12_DHash.
+From Proofs Require Import GenTie_Lib.
+From Gen Require Import Gen_Consts Gen_Funcs_prelude Gen_Funcs_findclient.
+Import ListNotations.
+Local Open Scope Z_scope.
+From Proofs Require Import GenTie_P3_C12.
+
+Theorem gen_tie_evk_body_pcache : forall (dec_vk dec_md : bytes -> bytes -> res bytes) (P : prims) (st : store) (mh evk : list N) (known : list N -> option N) (sel : Z), match find_one dec_vk dec_md P st (Some known) mh evk with | Ok rs => (exists tr : list string, body dec_vk dec_md P st mh evk (Some known) sel = FFall (rs, tr)) \/ rs = [] /\ (exists tr : list string, body dec_vk dec_md P st mh evk (Some known) sel = FContinue "" ([], tr)) | Err _ => False | Panic _ => True end.
+Proof. exact GenTie_P3_C12.tie_evk_body_pcache. Qed.
+Print Assumptions gen_tie_evk_body_pcache.
+
+Theorem gen_tie_evk_body_metadata_only : forall (dec_vk dec_md : bytes -> bytes -> res bytes) (P : prims) (st : store) (mh evk : list N) (sel : Z), match find_one dec_vk dec_md P st None mh evk with | Ok [] => exists tr : list string, body dec_vk dec_md P st mh evk None sel = FContinue "" ([], tr) /\ ~ In "resChan <- pr" tr | Ok (r :: rest) => rest = [] /\ snd r = 0%N /\ (exists tr : list string, body dec_vk dec_md P st mh evk None sel = (if sel =? 0 then FContinue "" ([], (tr ++ ["resChan <- pr"])%list) else FReturn "return ctx.Err()" ([], (tr ++ ["<-ctx.Done()"])%list))) | Err _ => False | Panic _ => True end.
+Proof. exact GenTie_P3_C12.tie_evk_body_metadata_only. Qed.
+Print Assumptions gen_tie_evk_body_metadata_only.
